@@ -126,8 +126,12 @@ func renderRule(r Rule) string {
 func renderSFile(pkg string, sf *SFile, bundles []Bundle, broken bool, declBundle bool) string {
 	var sb strings.Builder
 	fmt.Fprintf(&sb, "package %s\n\nimport \"github.com/quasilyte/go-ruleguard/dsl\"\n", pkg)
+	imported := map[string]bool{}
 	for _, b := range bundles {
-		fmt.Fprintf(&sb, "import \"example.com/%s\"\n", b.Pkg)
+		if !imported[b.Pkg] { // one bundle may be imported under several prefixes (or twice under one)
+			fmt.Fprintf(&sb, "import \"example.com/%s\"\n", b.Pkg)
+		}
+		imported[b.Pkg] = true
 	}
 	if declBundle {
 		sb.WriteString("\nvar Bundle = dsl.Bundle{}\n")
@@ -483,7 +487,17 @@ func genFile(rng *rand.Rand, id int, uid *int, pkgs map[string][]*SFile) *RFile 
 		sf.Groups = append(sf.Groups, g)
 	}
 	rf := &RFile{Main: sf}
-	switch rng.Intn(7) {
+	shape := rng.Intn(10)
+	if id >= 4 && id <= 6 { // files 4-6 of every pool import one bundle more than once, in each of the three ways
+		shape = id + 3
+	}
+	switch shape {
+	case 7: // one bundle under two prefixes: every group of it twice, under both names
+		rf.Bundles = []Bundle{{Prefix: "p1", Pkg: "rb1", Files: pkgs["rb1"]}, {Prefix: "p2", Pkg: "rb1", Files: pkgs["rb1"]}}
+	case 8: // ... one of them the empty prefix
+		rf.Bundles = []Bundle{{Prefix: "p2", Pkg: "rb2", Files: pkgs["rb2"]}, {Prefix: "", Pkg: "rb2", Files: pkgs["rb2"]}}
+	case 9: // one bundle twice under the same prefix: every group is a redefinition
+		rf.Bundles = []Bundle{{Prefix: "p1", Pkg: "rb1", Files: pkgs["rb1"]}, {Prefix: "p1", Pkg: "rb1", Files: pkgs["rb1"]}}
 	case 0:
 		rf.Bundles = []Bundle{{Prefix: "p1", Pkg: "rb1", Files: pkgs["rb1"]}}
 	case 1:
